@@ -388,9 +388,14 @@ Theorem spec_C18_holds : forall en t, wf_ftext t = true ->
 Proof.
   intros en t H. unfold spec_C18. rewrite (parse_formatter_render en t H).
   assert (R : forall f, formatter_eqb f f = true).
-  { intros [|g|d|tl|d tl|ty st|w code]; cbn [formatter_eqb];
-      repeat match goal with x : _ |- _ => destruct x; try reflexivity end.
-    all: try (destruct w; cbn [cwidth_eqb andb]; apply str_eqb_refl). }
+  { intros [|g|d|tl|d tl|ty st|w code]; cbn [formatter_eqb].
+    - reflexivity.
+    - destruct g; reflexivity.
+    - destruct d; reflexivity.
+    - destruct tl; reflexivity.
+    - destruct d, tl; reflexivity.
+    - destruct ty, st; reflexivity.
+    - rewrite str_eqb_refl. destruct w; reflexivity. }
   destruct (expected_pres en t); cbn [pres_eqb]; [apply R | apply str_eqb_refl | apply R].
 Qed.
 
@@ -419,9 +424,8 @@ Lemma wf_unpad : forall t, wf_ftext t = true -> wf_ftext (unpad t) = true.
 Proof.
   intros [name args] H. unfold wf_ftext, unpad in *. cbn [ft_name ft_args] in *.
   apply andb_true_iff in H as [H Hargs]. apply andb_true_iff in H as [Hname Hparen].
-  repeat (apply andb_true_iff; split).
-  - apply wf_unpad_tok. exact Hname.
-  - exact Hparen.
+  rewrite (wf_unpad_tok name Hname).
+  replace (tok (unpad_tok name)) with (tok name) by reflexivity. rewrite Hparen. cbn [andb].
   - destruct args as [[items tail]|]; [|reflexivity].
     apply andb_true_iff in Hargs as [Hitems Htail].
     apply andb_true_iff; split; [|exact Htail].
@@ -531,4 +535,94 @@ Theorem outer_ws_irrelevant : forall en l s r, all_ws l = true -> all_ws r = tru
 Proof.
   intros en l s r Hl Hr. unfold parse_formatter.
   rewrite (parse_formatter_args_prefix l (s ++ r) Hl), (parse_formatter_args_suffix s r Hr). reflexivity.
+Qed.
+
+(** * the variable part of find_variable: "{{" lw var rw "," text "}}" *)
+Lemma trim_start_split : forall s, exists w, all_ws w = true /\ s = w ++ trim_start s.
+Proof.
+  induction s as [|x s [w [Hw E]]].
+  - exists []. split; reflexivity.
+  - cbn [trim_start]. destruct (is_ws x) eqn:Ex.
+    + exists (x :: w). split; [cbn [all_ws forallb]; rewrite Ex; exact Hw | cbn [app]; rewrite <- E; reflexivity].
+    + exists []. split; reflexivity.
+Qed.
+
+Lemma trim_end_split : forall s, exists w, all_ws w = true /\ s = trim_end s ++ w.
+Proof.
+  intro s. destruct (trim_start_split (rev s)) as [w [Hw E]].
+  exists (rev w). split; [rewrite all_ws_rev; exact Hw|].
+  unfold trim_end. rewrite <- rev_app_distr, <- E, rev_involutive. reflexivity.
+Qed.
+
+Lemma parse_formatter_trim_end : forall en s, parse_formatter en (trim_end s) = parse_formatter en s.
+Proof.
+  intros en s. destruct (trim_end_split s) as [w [Hw E]].
+  unfold parse_formatter. rewrite E at 2. rewrite (parse_formatter_args_suffix (trim_end s) w Hw). reflexivity.
+Qed.
+
+Lemma trim_end_nonws_cons : forall a c b, is_ws c = false -> trim_end (a ++ c :: b) = a ++ c :: trim_end b.
+Proof.
+  intros a c b Hc. unfold trim_end. rewrite rev_app_distr. cbn [rev]. rewrite <- app_assoc. cbn [app].
+  rewrite trim_start_app_cases. destruct (all_ws (rev b)) eqn:E.
+  - cbn [trim_start]. rewrite Hc. rewrite (trim_start_all_ws (rev b) E). cbn [rev].
+    rewrite rev_involutive. reflexivity.
+  - rewrite rev_app_distr. cbn [rev]. rewrite rev_involutive. rewrite <- app_assoc. reflexivity.
+Qed.
+
+Theorem parse_variable_split : forall en var s,
+  wf_tok var = true -> tok var <> [] -> lacks c_comma (tok var) = true ->
+  parse_variable en (rtok var ++ c_comma :: s) =
+  match parse_formatter en s with
+  | POk f => VVar (var_prefix ++ tok var) f
+  | PUnknown n => VUnknown n
+  | PDisabled f => VDisabled f
+  end.
+Proof.
+  intros en [[l v] r] s Hwf Hne Hc. unfold rtok, tok, wf_tok in *. cbn [fst snd] in *.
+  apply andb_true_iff in Hwf as [Hwf Ht]. apply andb_true_iff in Hwf as [Hl Hr].
+  unfold parse_variable.
+  assert (E : trim ((l ++ v ++ r) ++ c_comma :: s) = (v ++ r) ++ c_comma :: trim_end s).
+  { unfold trim. rewrite <- app_assoc. rewrite trim_start_ws_app by exact Hl.
+    destruct v as [|c v']; [contradiction Hne; reflexivity|].
+    cbn [trimmed] in Ht. apply andb_true_iff in Ht as [Hc0 _]. apply negb_true_iff in Hc0.
+    cbn [app trim_start]. rewrite Hc0.
+    change (c :: (v' ++ r) ++ c_comma :: s) with (((c :: v') ++ r) ++ c_comma :: s).
+    apply trim_end_nonws_cons. reflexivity. }
+  rewrite E.
+  rewrite split_once_c_app
+    by (rewrite lacks_app, Hc; cbn [andb]; apply all_ws_lacks; [reflexivity | exact Hr]).
+  rewrite parse_formatter_trim_end.
+  replace (trim (v ++ r)) with v
+    by (symmetry; apply (trim_padded [] v r); [reflexivity | exact Hr | exact Ht]).
+  reflexivity.
+Qed.
+
+Theorem parse_variable_render : forall en var t,
+  wf_tok var = true -> tok var <> [] -> lacks c_comma (tok var) = true -> wf_ftext t = true ->
+  parse_variable en (rtok var ++ c_comma :: render t) = expected_vres en (tok var) t.
+Proof.
+  intros en var t Hv Hne Hc Ht. rewrite (parse_variable_split en var (render t) Hv Hne Hc).
+  rewrite (parse_formatter_render en t Ht). reflexivity.
+Qed.
+
+Lemma vres_eqb_refl : forall v, vres_eqb v v = true.
+Proof.
+  assert (R : forall f, formatter_eqb f f = true).
+  { intros [|g|d|tl|d tl|ty st|w code]; cbn [formatter_eqb].
+    - reflexivity.
+    - destruct g; reflexivity.
+    - destruct d; reflexivity.
+    - destruct tl; reflexivity.
+    - destruct d, tl; reflexivity.
+    - destruct ty, st; reflexivity.
+    - rewrite str_eqb_refl. destruct w; reflexivity. }
+  intros [k f|n|f]; cbn [vres_eqb]; [rewrite str_eqb_refl, R; reflexivity | apply str_eqb_refl | apply R].
+Qed.
+
+Theorem spec_C18_var_holds : forall en var t,
+  wf_tok var = true -> tok var <> [] -> lacks c_comma (tok var) = true -> wf_ftext t = true ->
+  spec_C18_var en (tok var) t (parse_variable en (rtok var ++ c_comma :: render t)) = true.
+Proof.
+  intros en var t Hv Hne Hc Ht. unfold spec_C18_var.
+  rewrite (parse_variable_render en var t Hv Hne Hc Ht). apply vres_eqb_refl.
 Qed.
